@@ -204,7 +204,10 @@ func (s *Translator) Enter(expression cypher.SyntaxNode) {
 
 	case *cypher.Parameter:
 		var (
-			cypherIdentifier = pgsql.Identifier(typedExpression.Symbol)
+			// Parameter symbols live in their own namespace: $n and the variable n are unrelated. The alias table is
+			// shared with variables, so the parameter's key carries the sigil, which no variable symbol can contain
+			// unescaped.
+			cypherIdentifier = parameterAliasIdentifier(typedExpression.Symbol)
 			binding, bound   = s.scope.AliasedLookup(cypherIdentifier)
 		)
 
@@ -213,7 +216,7 @@ func (s *Translator) Enter(expression cypher.SyntaxNode) {
 				s.SetError(err)
 			} else {
 				// Alias the old parameter identifier to the synthetic one
-				if cypherIdentifier != "" {
+				if typedExpression.Symbol != "" {
 					s.scope.Alias(cypherIdentifier, parameterBinding)
 				}
 
@@ -332,6 +335,11 @@ func (s *Translator) Enter(expression cypher.SyntaxNode) {
 	default:
 		s.SetErrorf("unable to translate cypher type: %T", expression)
 	}
+}
+
+// parameterAliasIdentifier returns the alias table key for a user supplied parameter symbol.
+func parameterAliasIdentifier(symbol string) pgsql.Identifier {
+	return pgsql.Identifier("$" + symbol)
 }
 
 func (s *Translator) resolveParameterValue(parameter *cypher.Parameter) any {
